@@ -117,7 +117,8 @@ Section FileOps.
     end.
 
   Definition f_write_at (b : list N) (off : Z) : fsys * res :=
-    if Z.ltb off 0 then (s, RFail EG_NegativeOffset)
+    if has (hd_mode f) OpenAppend then (s, RFail EG_WriteAtInAppendMode)   (* refused on an O_APPEND handle, first of all *)
+    else if Z.ltb off 0 then (s, RFail EG_NegativeOffset)
     else match b with [] => (s, RInt 0) | _ =>              (* zero bytes: (0, nil) at once *)
       match hd_name f with
       | [] => (s, RFail EG_Invalid)
